@@ -108,6 +108,7 @@ class Ctx:
         self.by_name = {}
         self.memo = {}           # ("sqrt"|"inv"|uf, key) -> generator index
         self.sqrt_rad = {}       # generator index -> radicand R
+        self.inv_den = {}        # generator index -> polynomial D with g*D == 1
         self.uf_apps = []        # (name, arg R, generator)
         self.angles = {}         # generator index -> AngleInfo
         self.cons = []           # [(z3 expr, frozenset(var names))]
@@ -538,10 +539,10 @@ class R:
                 del d[m]
         r = _mk(d, s, o)
         ctx = Ctx.cur
-        if ctx is not None and ctx.sqrt_rad and not isinstance(r, I):
+        if ctx is not None and (ctx.sqrt_rad or ctx.inv_den) and not isinstance(r, I):
             for m in d:
                 for g, e in m:
-                    if e <= -2 and g in ctx.sqrt_rad:
+                    if (e <= -2 and g in ctx.sqrt_rad) or (e >= 1 and g in ctx.inv_den):
                         return _reduce_sqrt(r)
         return r
 
@@ -626,6 +627,8 @@ class R:
             g = ctx.new_gen(f"inv!{len(ctx.names)}", nonzero=True, positive=(sg == 1))
             ctx.add(ctx.zv[g] * prim.z() == 1)
             ctx.memo[key] = g
+            if all(e >= 0 for m in prim.p for _, e in m):
+                ctx.inv_den[g] = prim
         return pre * R.gen(g)
 
     def __truediv__(s, o):
@@ -717,6 +720,10 @@ class R:
         rc = rest.concrete()
         if rc is not None:
             return out * rest.sqrt()
+        if len(rest.p) > 1:
+            q = _poly_sqrt(rest.p)
+            if q is not None:
+                return out * abs(R(q))
         # monic normalisation: leading coefficient (of the smallest monomial) -> 1
         lead_m = max(rest.p, key=lambda m: (sum(abs(e) for _, e in m), m))
         lead = rest.p[lead_m]
@@ -1044,14 +1051,72 @@ def _pow_uf(base, expo):
     return R.gen(g)
 
 
-def _mono_key(m):
-    return (sum(e for _, e in m), m)
+def _poly_sqrt(P):
+    """Q with Q*Q == P for a polynomial P (dict monomial->Fraction, non-negative exponents), else None"""
+    if not P or any(e < 0 for m in P for _, e in m):
+        return None
+    gens = sorted({g for m in P for g, _ in m})
+
+    def key(m):
+        d = dict(m)
+        return (sum(e for _, e in m), tuple(d.get(g, 0) for g in gens))
+    lt = max(P, key=key)
+    lc = P[lt]
+    if lc <= 0 or any(e % 2 for _, e in lt):
+        return None
+    n, d = math.isqrt(lc.numerator), math.isqrt(lc.denominator)
+    if n * n != lc.numerator or d * d != lc.denominator:
+        return None
+    q0m = tuple((g, e // 2) for g, e in lt)
+    q0c = Fraction(n, d)
+    Q = {q0m: q0c}
+    rem = dict(P)
+    rem.pop(lt)
+    q0d = dict(q0m)
+    for _ in range(200):
+        if not rem:
+            return Q
+        rt = max(rem, key=key)
+        rd = dict(rt)
+        t = {}
+        for g, e in q0d.items():
+            if rd.get(g, 0) < e:
+                return None
+        for g, e in rd.items():
+            v = e - q0d.get(g, 0)
+            if v:
+                t[g] = v
+        tm = tuple(sorted(t.items()))
+        tc = rem[rt] / (2 * q0c)
+        if tm in Q:
+            return None
+        # rem -= 2*t*Q + t^2
+        for m, c in Q.items():
+            mm = _mmul(m, tm)
+            v = rem.get(mm, 0) - 2 * c * tc
+            if v:
+                rem[mm] = v
+            else:
+                rem.pop(mm, None)
+        mm = _mmul(tm, tm)
+        v = rem.get(mm, 0) - tc * tc
+        if v:
+            rem[mm] = v
+        else:
+            rem.pop(mm, None)
+        Q[tm] = tc
+    return None
 
 
 def _exact_div(P, D):
     """P / D for polynomials (dict monomial->Fraction, non-negative exponents) if the division is exact, else None"""
     if not D:
         return None
+    gens = sorted({g for m in P for g, _ in m} | {g for m in D for g, _ in m})
+
+    def _mono_key(m):                      # graded lexicographic order (a proper term order)
+        d = dict(m)
+        return (sum(e for _, e in m), tuple(d.get(g, 0) for g in gens))
     dl = max(D, key=_mono_key)
     dlc = D[dl]
     dld = dict(dl)
@@ -1091,12 +1156,13 @@ def _exact_div(P, D):
 
 
 def _reduce_sqrt(r):
-    """keep forms canonical modulo g*g = rad for sqrt generators: g^2 -> rad; terms with g^-2k are divided by
-    rad^k when that division is exact"""
+    """keep forms canonical modulo the defining relations of sqrt and reciprocal generators:
+    g^2 -> rad; terms with g^-2k are divided by rad^k when that division is exact;
+    terms with q^k (q*D == 1) are divided by D^k when that division is exact"""
     ctx = Ctx.cur
-    if ctx is None or not ctx.sqrt_rad:
+    if ctx is None or not (ctx.sqrt_rad or ctx.inv_den):
         return r
-    sr = ctx.sqrt_rad
+    sr, iv = ctx.sqrt_rad, ctx.inv_den
     pos = neg = False
     for m in r.p:
         for g, e in m:
@@ -1105,6 +1171,8 @@ def _reduce_sqrt(r):
                     pos = True
                 elif e <= -2:
                     neg = True
+            elif e >= 1 and g in iv:
+                neg = True
     if not pos and not neg:
         return r
     if pos:
@@ -1127,11 +1195,11 @@ def _reduce_sqrt(r):
             else:
                 acc = acc + R({tuple(newm): c}) * factor
         r = R(keep) + acc
-        neg = any(e <= -2 and g in sr for m in r.p for g, e in m)
+        neg = any((e <= -2 and g in sr) or (e >= 1 and g in iv) for m in r.p for g, e in m)
     if not neg:
         return r
-    # group by (g, even negative power) one generator at a time
-    for g in sorted({g for m in r.p for g, e in m if g in sr and e <= -2}):
+    cands = sorted({g for m in r.p for g, e in m if (g in sr and e <= -2) or (g in iv and e >= 1)})
+    for g in cands:
         groups = {}
         for m, c in r.p.items():
             e = dict(m).get(g, 0)
@@ -1140,11 +1208,17 @@ def _reduce_sqrt(r):
         changed = False
         for e, poly in groups.items():
             done = False
-            if e <= -2:
+            k = 0
+            if g in sr and e <= -2:
                 k = (-e) // 2
-                rad = sr[g]
-                # clear negative exponents of poly and rad by a common monomial shift
-                den = rad ** k if k > 1 else rad
+                base = sr[g]
+                rest_e = e + 2 * k
+            elif g in iv and e >= 1:
+                k = e
+                base = iv[g]
+                rest_e = 0
+            if k:
+                den = base ** k if k > 1 else base
                 if all(ee >= 0 for m in den.p for _, ee in m):
                     shift = {}
                     for m in poly:
@@ -1156,7 +1230,6 @@ def _reduce_sqrt(r):
                     q = _exact_div(P, den.p)
                     if q is not None:
                         inv_sm = tuple((gg, -ee) for gg, ee in sm)
-                        rest_e = e + 2 * k
                         for m, c in q.items():
                             mm = _mmul(m, inv_sm) if sm else m
                             if rest_e:
